@@ -92,3 +92,10 @@ pub(crate) fn stub_string_push_str(s: &mut String, t: &str) {
         s.push(c);
     }
 }
+
+/// Stub for `<f64 as Display>::fmt` (reached through `f64::to_string()` when an error message quotes a number, e.g.
+/// `NumericIndexIsNotValid { index: index.to_string() }`): Rust's shortest-representation printer (grisu / dragon
+/// bignum loops) is trusted host-library code and is never the subject; nothing is written.
+pub(crate) fn stub_f64_display(_x: &f64, _f: &mut core::fmt::Formatter<'_>) -> core::fmt::Result {
+    Ok(())
+}
